@@ -417,9 +417,14 @@ func (g *Gen) ifaceAxioms(sym, method string, i int, sorts []string, rsort strin
 }
 
 func (e *Exec) dynCall(x *ssa.Call, fv val) {
-	// unknown function value: result is an uninterpreted function of (fn, args)
+	// function value not known statically: a case split over the function constants created by this
+	// activation (closures stored in local maps/variables); anything else is an uninterpreted application
 	cc := &x.Call
 	fnT := e.asTerm(fv, cc.Value.Type())
+	if r, ok := e.dynSplit(x, fnT); ok {
+		e.setVal(x, r)
+		return
+	}
 	args := []Term{fnT}
 	sorts := []string{"Fn"}
 	for _, a := range cc.Args {
@@ -444,6 +449,69 @@ func (e *Exec) dynCall(x *ssa.Call, fv val) {
 		return
 	}
 	e.setVal(x, resultVals(out))
+}
+
+// dynSplit: result_i = ite(fn == fn_c1, body_c1(args), ite(fn == fn_c2, …, apply(fn,args)))
+func (e *Exec) dynSplit(x *ssa.Call, fnT Term) (val, bool) {
+	cc := &x.Call
+	r := e.root()
+	if len(r.closures) == 0 {
+		return val{}, false
+	}
+	var args []Term
+	var sorts []string
+	for _, a := range cc.Args {
+		args = append(args, e.term(a))
+		sorts = append(sorts, e.g.sortOf(a.Type()))
+	}
+	sig := cc.Signature()
+	n := sig.Results().Len()
+	// fallback: uninterpreted application
+	acc := make([]Term, n)
+	for i := 0; i < n; i++ {
+		rt := sig.Results().At(i).Type()
+		nm := fmt.Sprintf("apply%d_%s#%d", len(args)+1, sanitize(strings.Join(append([]string{"Fn"}, sorts...), "_")), i)
+		acc[i] = e.libCall(nm, append([]string{"Fn"}, sorts...), e.g.sortOf(rt), append([]Term{fnT}, args...))
+	}
+	used := 0
+	for _, f := range r.closures {
+		if !types.Identical(f.Signature.Params(), sig.Params()) || !types.Identical(f.Signature.Results(), sig.Results()) {
+			continue
+		}
+		var res []Term
+		if f.Parent() != nil && e.w.contractOf(f) == nil && len(e.w.loopsOf(f).loops) == 0 && len(f.FreeVars) == 0 {
+			// small anonymous function without a contract: its body is used directly (exact)
+			sub := newExec(e.g, e.w, f, fmt.Sprintf("%scl%d_", e.pfx, used))
+			sub.noObl = true
+			sub.run(args)
+			if e.g.unsupported != "" {
+				return val{}, false
+			}
+			res, _ = sub.resultTerms()
+		} else {
+			res = e.g.useCallee(f, args)
+		}
+		used++
+		for i := 0; i < n && i < len(res); i++ {
+			acc[i] = ite(eq(fnT, e.fnConst(f)), res[i], acc[i])
+		}
+	}
+	if used == 0 {
+		return val{}, false
+	}
+	var out []Term
+	for i := 0; i < n; i++ {
+		rt := sig.Results().At(i).Type()
+		t := e.def(fmt.Sprintf("%s_%d", x.Name(), i), e.g.sortOf(rt), acc[i])
+		if inv := e.typeInv(rt, t); inv != "true" && e.parent == nil {
+			e.assume(implies(e.reach[e.curBlock], inv))
+		}
+		out = append(out, t)
+	}
+	if n == 0 {
+		return val{}, true
+	}
+	return resultVals(out), true
 }
 
 type dynCallInfo struct {
